@@ -124,7 +124,9 @@ func (c *Ctx) mutatorCore(d *dstate, fn *ssa.Function, depth int) (*ssa.Function
 // queuesAfterWrites: on every successful path of fn, a store write is followed by a QueueBroadcast. The package's
 // helpers are inlined into the paths (three levels); other mutators are events that write and broadcast themselves.
 // Returns the number of writing+queueing paths and a counterexample.
-func (c *Ctx) queuesAfterWrites(d *dstate, fn *ssa.Function, memo map[*ssa.Function]int) (nOK int, bad string, npaths int) {
+// Package helpers are spliced into the paths, so a write is the store operation itself (map update, trie Insert / Upsert),
+// not the call of the helper that contains it: a helper that returns early has written nothing on that path.
+func (c *Ctx) queuesAfterWrites(d *dstate, fn *ssa.Function, bulk bool) (nOK int, bad string, npaths int) {
 	paths, err := c.pathsInlinedPkg(fn, core.PathOpts{}, func(g *ssa.Function) bool { return d.mutatorOf(g) != nil })
 	if err != nil {
 		return 0, err.Error(), 0
@@ -154,11 +156,17 @@ func (c *Ctx) queuesAfterWrites(d *dstate, fn *ssa.Function, memo map[*ssa.Funct
 						continue
 					}
 				}
-				if c.isStoreWrite(d, pi.In) {
+				if d.isStoreWriteInstr(pi.In) {
 					wroteAt, queued = i, false
 				}
 			}
-			if wroteAt >= 0 && !queued {
+			if wroteAt >= 0 && !queued && !bulk {
+				// a single-entry mutator builds its broadcast before it touches the store: an entry that cannot be encoded
+				// (a client identifier that is not valid UTF-8) must not stay in the store — unbroadcast, and making every
+				// later snapshot of the node fail to encode
+				bad = "after the local store was changed the mutator can still leave on an error: the change stays local and is never gossiped — " + fmtPath(p, c.P)
+			}
+			if wroteAt >= 0 && !queued && bulk {
 				for _, dd := range decisions(p) {
 					if dd.Seq < wroteAt {
 						continue
@@ -202,7 +210,7 @@ func (c *Ctx) queuesAfterWrites(d *dstate, fn *ssa.Function, memo map[*ssa.Funct
 					continue
 				}
 			}
-			if c.isStoreWrite(d, pi.In) {
+			if d.isStoreWriteInstr(pi.In) {
 				wrote, queuedAfter = true, false
 			}
 		}
@@ -527,7 +535,7 @@ func checkC09(c *Ctx) {
 	c.R.Explanation = "Static rules over the mutators of the three replicated state types (wasp/distributed): (R1) every path that wrote the store and reports success queues a broadcast afterwards; (R2) what is queued is proto.Marshal of a StateBroadcastEvent whose element is the very variable written to the store; (R3) in bulk mutators the store write and the append to the event happen in the same loop iteration; (R4) no loop-carried alias: the pointer appended is distinct per iteration (go 1.14 range-variable semantics are honoured); (R5) the broadcast type queued by mutators never invalidates another broadcast; (R6) the timestamp is read and the entry stored under one hold of the state lock, so stamp order equals local application order."
 	c.R.NotCovered = "Value-level equality of the receiver's listing with the sender's (needs execution of the merge algebra, partly decided under C08), memberlist queue behaviour (retransmit limits)."
 	c.R.Assume("memberlist.TransmitLimitedQueue delivers queued broadcasts that are not invalidated")
-	ru1 := c.R.Rule("C09-R1", "in every mutator, each path that wrote the replicated store and returns success passes TransmitLimitedQueue.QueueBroadcast after the write", "E1 paths (one loop iteration)", 9)
+	ru1 := c.R.Rule("C09-R1", "in every mutator, each path that wrote the replicated store and returns success passes TransmitLimitedQueue.QueueBroadcast after the write; a single-entry mutator has no failing exit after the write at all (the broadcast is built first), a bulk mutator — whose entries come out of the store — only the failure to build the broadcast", "E1 paths (one loop iteration)", 9)
 	d := c.dstate(ru1)
 	if d == nil {
 		return
@@ -548,7 +556,7 @@ func checkC09(c *Ctx) {
 				delegated = true
 			}
 		}
-		nOK, bad, np := c.queuesAfterWrites(d, f, map[*ssa.Function]int{})
+		nOK, bad, np := c.queuesAfterWrites(d, f, m.bulk)
 		ru1.Evals(np)
 		ru1.Check(bad == "" && nOK > 0, key, c.where(f, f), fmt.Sprintf("%d successful writing path(s), each followed by a broadcast", nOK), bad+map[bool]string{true: "", false: " (no path both writes the store and queues a broadcast)"}[nOK > 0])
 		if delegated {
